@@ -57,14 +57,29 @@ TEXT = {
             "owned iterators after the end.", "<= 3 lines; record sets <= 2 records"),
 }
 
+E3_TEXT = {
+    "C07": ("z3 bounded model checking of the product of the thread automata extracted from the nightly MIR of src/parallel.rs "
+            "(read_parallel_init, its scope / reader / pool / job closures, ParallelRecordsets::next) with axioms for sync_channel, "
+            "crossbeam scope and scoped_threadpool: no interleaving delivers a record set twice, with another set's output, or "
+            "(draining consumer) not at all; file order with one worker.",
+            "queue_len 2, 2 workers, <= 2 record sets, depth 30 (quick); per-record pairing inside a set not modelled"),
+    "C08": ("same model: no reachable deadlock, and every run has terminated within the depth bound, for every consumer "
+            "behaviour (stop after any number of results), reader error, failing initialisers.",
+            "bounds as C07; user closures do not panic; the consumer does not call next() after the end marker"),
+    "C15": ("same model: no panic; the reader's error reaches a draining consumer exactly once after all earlier sets; a failing "
+            "reader/data-set initialiser makes the call return Err (D5 found by this query and fixed).",
+            "bounds as C07; equality of the parallel and the sequential parse error rests on fill_data == read_record_set (checked in the MIR) and C02/C17"),
+    "C16": ("same model: at most queue_len + 1 data sets are ever created, fills never run more than queue_len + 1 ahead of "
+            "deliveries; fill_data is only applied to a set received back through the recycle channel (extraction rule).",
+            "bounds as C07"),
+}
+
+TEXT["C19"] = ("The derive-generated Serialize/Deserialize code of OwnedRecord and RecordSet (both formats, incl. the private "
+               "BufferPosition structs and stale positions beyond npos) is run by the solver against a minimal positional serde back end "
+               "written in the harness crate; the deserialised value must expose the same buffer, record count and coordinates.",
+               "vector lengths concrete (1-2 bytes, 2 positions), contents and offsets symbolic; format-specific behaviour of real serde back ends is outside the claim")
+
 NOT_APPLICABLE = {
-    "C07": "schedule-quantified property of threaded code (mpsc channels, crossbeam scope, scoped_threadpool): Kani/CBMC cannot "
-           "execute threads, and the MIR-skeleton -> z3 encoding planned as engine E3 (DESIGN §9) was not built/validated "
-           "within the time budget; no other technique substituted",
-    "C08": "same as C07 (deadlock freedom over all interleavings of real threads is outside the reach of Kani; E3 not validated)",
-    "C15": "same as C07 (error delivery through the threaded pipeline; D5 - panic on a failing reader_init - is documented in "
-           "DESIGN §10 from reading and a native run only)",
-    "C16": "same as C07 (count of data sets created is a property of the threaded protocol)",
     "C19": "serde round trip needs a serde back end inside the harness; the derive-generated visitors over a hand-written "
            "value-tree format were not brought under the solver within the time budget",
 }
@@ -94,8 +109,27 @@ def main():
         "not_applicable": [],
         "notes": "see DESIGN.md; known_findings.json lists the defects found and fixed",
     }
+    m["engines"].append({
+        "name": "E3-mir-z3", "path": "/verif/e3", "serves_properties": sorted(E3_TEXT),
+        "kind_free_text": "nightly MIR dump of /repo -> mirx.py (abstract interpretation of the protocol bodies into thread automata; "
+                          "anything outside the recognised vocabulary => INCONCLUSIVE) -> bmc.py (z3 bit-vector BMC over interleavings, "
+                          "outcomes and scenarios) -> e3/replayer (native run of the real functions under the counterexample's scenario "
+                          "and a time-triggered schedule); extracted automata are validated against native traces on every run"})
     for p in props:
         pid = p["id"]
+        if pid in E3_TEXT and os.path.exists(os.path.join(V, "e3", "check_par.py")):
+            t, note = E3_TEXT[pid]
+            m["checks"].append({
+                "property_id": pid,
+                "quick_cmd": "python3 /verif/check.py %s --tier quick" % pid,
+                "thorough_cmd": "python3 /verif/check.py %s --tier thorough" % pid,
+                "evidence_file": "/verif/evidence/%s.json" % pid,
+                "engine": "E3-mir-z3",
+                "level_claimed": {"category": "model_checking", "text": t, "design_ref": "DESIGN.md §13.6 " + pid},
+                "level_note": "bounded: " + note + "; hand-written axioms for std mpsc, crossbeam scope, scoped_threadpool; sequentially consistent interleavings; z3 soundness",
+                "technique": "SMT-based bounded model checking (z3) of thread automata extracted from the compiler's MIR",
+            })
+            continue
         if pid in claimed and pid in TEXT:
             t, note = TEXT[pid]
             m["checks"].append({
